@@ -44,7 +44,8 @@ META = {
                     "numpy/CPython arithmetic is the trusted base for value equality"],
     "probes": ["step_failed", "step_switched", "step_raised", "zero_trip_loop", "else_taken",
                "failed_then_completed", "op_after_raise", "t_end_stop", "cap_abandon", "second_instance",
-               "interpreter_after_codegen_on_same_objects", "builder_extended_after_phase_snapshot"],
+               "interpreter_after_codegen_on_same_objects", "builder_extended_after_phase_snapshot",
+               "generator_object_reused"],
  },
  "C11": {
     "level": "fault_enumeration",
@@ -232,10 +233,46 @@ def build_all(ctx, sc, tape, permute=True, edit=None):
     b.code_plain = DAGCode(plain_phases, sc.initial)
     try:
         cg = PythonCodeGenerator(class_name="Method")
-        b.text = cg(b.code_plain)
-        ns = {}
-        exec(compile(b.text, "<generated>", "exec"), ns)
-        b.cls = ns["Method"]
+        with tape.span("generator_reused"):
+            reused = tape.chance(0.2, "generator_reused")
+        if reused:
+            # history of the generator object: it made the class of another description before (a small
+            # description that is gone again by the time this one is assembled), then get_class() is asked for
+            # this one
+            from pymbolic import var as _var
+            from dagrt.language import Assign as _Assign, YieldState as _Yield
+            dstm = [_Assign(id="d0", assignee="<state>decoy", assignee_subscript=(), expression=_var("<t>") + 4242,
+                            depends_on=[]),
+                    _Yield(id="d1", time=_var("<t>"), time_id="decoy", component_id="decoy",
+                           expression=_var("<state>decoy"), depends_on=["d0"])]
+            decoy = DAGCode({"main": ExecutionPhase("main", "main", dstm)}, "main")
+            cg.get_class(decoy)
+            # CPython hands the storage of a dead object to the next object of its size: assemble the description
+            # until it sits where the dead one sat (object identity is all that tells descriptions apart for
+            # whoever keys a table by id()).  Nothing is allocated between the death and the first attempt.
+            keep = [None] * 64
+            tries = iter(range(64))
+            initial = sc.initial
+            dead = id(decoy)
+            del decoy
+            for _try in tries:
+                cand = DAGCode(plain_phases, initial)
+                if id(cand) == dead:
+                    break
+                keep[_try] = cand
+            # (whether the address was hit depends on the allocator's state: counted outside the run digest)
+            if id(cand) == dead:
+                ctx.count("nondet:description_at_the_address_of_a_dead_one")
+            b.code_plain = cand
+            del keep, dstm
+            b.cls = cg.get_class(b.code_plain)
+            b.text = None
+            ctx.count("probe:generator_object_reused")
+        else:
+            b.text = cg(b.code_plain)
+            ns = {}
+            exec(compile(b.text, "<generated>", "exec"), ns)
+            b.cls = ns["Method"]
         b.nmgr = cg._name_manager
     except Exception as e:
         tb = traceback.extract_tb(e.__traceback__)
@@ -779,6 +816,11 @@ def run_c11(ctx):
         step_mode = ["single", "run1", ("run", 2), ("run", 3)][tape.weighted([3, 3, 1, 1], "step_mode")]
         interleave = tape.chance(0.3, "interleave_resumed_and_fresh")
         hold_exception = tape.chance(0.4, "hold_exception")
+        warnings_are_errors = tape.chance(0.25, "warnings_are_errors")
+    if warnings_are_errors:
+        ctx.count("fault:warnings_are_errors")
+    with tape.span("plan2"):
+        pass
         exc_cls = FAULT_CLASSES[tape.draw(len(FAULT_CLASSES), "exc")]
         n_after = 1 + tape.draw(3, "n_after")
         second_fault = tape.chance(0.3, "second_fault")
@@ -839,7 +881,14 @@ def run_c11(ctx):
                 A.table.new_step()
                 A.table.arm(k, exc)
                 A.boundary = (pre, pre_phase)
-                evs, out = do_step(A, step_mode)
+                if warnings_are_errors:
+                    # process configuration: -W error (as test runners set it): anything that warns on the way
+                    # out raises instead
+                    with warnings.catch_warnings():
+                        warnings.simplefilter("error")
+                        evs, out = do_step(A, step_mode)
+                else:
+                    evs, out = do_step(A, step_mode)
                 step_pre, step_phase = A.boundary       # state at the start of the step that faulted
                 label = "%s: fault %s at user call %d of the step in phase %r after %d steps" % (
                     kind, exc_cls.__name__, k, pre_phase, pre_steps)
